@@ -27,6 +27,12 @@ class ArmPolicy(I.Policy):
                 not isinstance(fi.node, type(None)):
             if fi.name == '<lambda>':
                 return None
+            if fi.owner is not None or fi.is_generator or (
+                    fi.name.startswith('_') and
+                    fi.name != '_deprecated_table_integer'):
+                # methods of helper classes, generators and private helpers
+                # are part of the function under analysis: inlined
+                return None
             return Sym('enc', fi.short, I._as_term(args[0]),
                        *[I._as_term(a) for a in args[1:]]), []
         return None
@@ -159,6 +165,12 @@ def ladder_arms(ctx, legacy, fi=None, within=None, depth=0, extra=(),
     rej_types = set()
     flag_reads = pol.flag_reads
     funcs = [fi.short]
+    # helpers the interpreter inlined are part of the ladder as well
+    for c_ in it.calls:
+        nm_ = c_[0]
+        if not nm_.endswith('[summarised]') and nm_.startswith('encode.') \
+                and nm_ not in funcs:
+            funcs.append(nm_)
     leaves = []
     for o in outs:
         if o.kind != 'return':
@@ -501,6 +513,13 @@ def check_table_entry_order(chk, ctx, rule):
         all(k == 'key' for k, _ in iterable.args[1])
     rev = isinstance(iterable, Sym) and iterable.op == 'sorted' and \
         any(k == 'reverse' for k, _ in iterable.args[1])
+    if isinstance(iterable, T.Ref):
+        # the entries come out of a helper (a generator, a prepared list):
+        # their order is decided there, out of this rule's reach
+        chk.undecide(rule, 'encode.field_table iteration',
+                     'entries are iterated from an intermediate sequence '
+                     'built by a helper, not from sorted(value.items())')
+        return
     chk.ob(rule, 'encode.field_table iteration', okk and not rev,
            'entries iterated as %s' % T.show(iterable)[:100],
            detail={'expected': 'sorted(value.items())'}, site=site)
